@@ -165,7 +165,14 @@ pub fn run(t: &[&str]) -> String {
             } else {
                 Choppy { data: &bytes, pos: 0, chunk: 1 + k % 7, fail_at: Some(k) }
             };
-            show(read_pnm(rd))
+            let r = show(read_pnm(rd));
+            if t[0] == "readshort" {
+                // the reader only delivers the same bytes in smaller pieces: the result must be parse_pnm's
+                let p = show(parse_pnm(bytes.iter().copied()));
+                format!("{r} {}", if r == p { "rd:same" } else { "rd:diff" })
+            } else {
+                r
+            }
         }
         "writeb" => {
             let (w, h): (u32, u32) = (t[1].parse().unwrap(), t[2].parse().unwrap());
@@ -445,6 +452,13 @@ pub fn gen(rng: &mut Rng, tier: Tier, out: &mut Vec<String>) {
     for _ in 0..400 * k {
         let wmax = if rng.chance(1, 10) { 40 } else { 9 };
         let (w, h) = (rng.below(wmax), rng.below(9));
+        // one image in forty is LONG in one dimension (257..700): row buffers, chunked readers and narrow
+        // counters show only beyond a few hundred pixels
+        let (w, h) = match rng.below(80) {
+            0 => (257 + rng.below(444), 1 + rng.below(3)),
+            1 => (1 + rng.below(3), 257 + rng.below(444)),
+            _ => (w, h),
+        };
         let px = rand_pixels(rng, (w * h) as usize);
         let p = printer(w, h, &px);
         out.push(format!("parse {} exp {w} {h} {}", hex_bytes(&p), px_hex(&px)));
@@ -459,6 +473,11 @@ pub fn gen(rng: &mut Rng, tier: Tier, out: &mut Vec<String>) {
     // ---- write_ppm on strided sub-views and owned buffers, parsed back
     for _ in 0..500 * k {
         let (w, h) = (rng.below(7), rng.below(7));
+        let (w, h) = match rng.below(60) {
+            0 => (257 + rng.below(300), 1 + rng.below(3)),
+            1 => (1 + rng.below(3), 257 + rng.below(300)),
+            _ => (w, h),
+        };
         let s = w + rng.below(4);
         let need = if h == 0 { 0 } else { (h - 1) * s + w };
         let n = need + rng.below(4);
